@@ -71,6 +71,10 @@ type xfPeer struct {
 	timeouts int
 	npending int
 	applied  []xfChunk // WRITE requests answered OK (their data is in the served file), in answer order
+	// reply order (SetOrder): READ/WRITE requests at these offsets are answered in this order
+	order   []int64
+	ordNext int // order[:ordNext] have been answered
+	ordHit  int // … of which in their turn (not released by the idle timer)
 }
 
 const xfHandleTag = "\xfeH\xff" // bytes >= 251 never occur in the data patterns
@@ -137,6 +141,7 @@ func (p *xfPeer) Reset(o xfPeerOpts) bool {
 	p.applied = nil
 	p.closes = 0
 	p.timeouts = 0
+	p.order, p.ordNext, p.ordHit = nil, 0, 0
 	p.mu.Unlock()
 	return true
 }
@@ -171,6 +176,39 @@ func (p *xfPeer) Settle() bool {
 		}
 		time.Sleep(50 * time.Microsecond)
 	}
+}
+
+// xfOrderGap is the pause after a reply that has a place in the reply order: the client's worker has taken the reply
+// off its channel and handed the outcome on before the next ordered reply is written.
+const xfOrderGap = 250 * time.Microsecond
+
+// xfOrderIdle: a request held back for its turn is released when nothing has arrived for this long (the request it
+// waits for is not coming: the client does not send it before it has an answer).
+const xfOrderIdle = 4 * time.Millisecond
+
+// SetOrder installs the reply order of the next call (nil: none) and returns how many entries of the previous one
+// were answered in their turn. The peer must be quiescent.
+func (p *xfPeer) SetOrder(offs []int64) (hit int) {
+	p.mu.Lock()
+	defer p.mu.Unlock()
+	hit = p.ordHit
+	p.order, p.ordNext, p.ordHit = append([]int64(nil), offs...), 0, 0
+	return hit
+}
+
+// ordPlace returns the position of a READ/WRITE request in the part of the reply order that is still to come (-1: none).
+func (p *xfPeer) ordPlace(q xfReq) int {
+	if q.Typ != wire.Read && q.Typ != wire.Write {
+		return -1
+	}
+	p.mu.Lock()
+	defer p.mu.Unlock()
+	for i := p.ordNext; i < len(p.order); i++ {
+		if p.order[i] == q.Off {
+			return i - p.ordNext
+		}
+	}
+	return -1
 }
 
 // SetBehaviour changes window / failures between calls (the peer must be quiescent).
@@ -265,9 +303,39 @@ func (p *xfPeer) decode(pk wire.Pkt) xfReq {
 func (p *xfPeer) run() {
 	defer close(p.done)
 	var pending []xfReq
+	var held []xfReq // requests waiting for their turn in the reply order
 	drain := false
 	timer := time.NewTimer(time.Hour)
 	defer timer.Stop()
+	// answerOrdered answers q, which is next in the reply order, and then every held request whose turn has come
+	answerOrdered := func(q xfReq, inTurn bool) bool {
+		for {
+			if p.SS.Reply(p.answer(q)) != nil {
+				return false
+			}
+			p.mu.Lock()
+			p.ordNext++
+			if inTurn {
+				p.ordHit++
+			}
+			p.mu.Unlock()
+			time.Sleep(xfOrderGap)
+			found := false
+			for i, h := range held {
+				if p.ordPlace(h) == 0 {
+					q, found = h, true
+					held = append(held[:i], held[i+1:]...)
+					break
+				}
+			}
+			p.mu.Lock()
+			p.npending = len(pending) + len(held)
+			p.mu.Unlock()
+			if !found {
+				return true
+			}
+		}
+	}
 	for {
 		var pk wire.Pkt
 		var ok bool
@@ -275,6 +343,37 @@ func (p *xfPeer) run() {
 		window := p.opts.Window
 		p.mu.Unlock()
 		switch {
+		case len(held) > 0 && len(pending) == 0:
+			if !timer.Stop() {
+				select {
+				case <-timer.C:
+				default:
+				}
+			}
+			timer.Reset(xfOrderIdle)
+			select {
+			case pk, ok = <-p.SS.Reqs:
+				if !ok {
+					return
+				}
+			case <-timer.C:
+				// the request the held ones wait for is not coming: release them, in their order
+				best, bi := -1, 0
+				for i, h := range held {
+					if pl := p.ordPlace(h); best < 0 || pl < best {
+						best, bi = pl, i
+					}
+				}
+				q := held[bi]
+				held = append(held[:bi], held[bi+1:]...)
+				p.mu.Lock()
+				p.ordNext += best // skip the entries that never came
+				p.mu.Unlock()
+				if !answerOrdered(q, false) {
+					return
+				}
+				continue
+			}
 		case len(pending) == 0:
 			pk, ok = <-p.SS.Reqs
 			if !ok {
@@ -341,6 +440,18 @@ func (p *xfPeer) run() {
 		}
 		p.log = append(p.log, q)
 		p.mu.Unlock()
+		if pl := p.ordPlace(q); pl == 0 {
+			if !answerOrdered(q, true) {
+				return
+			}
+			continue
+		} else if pl > 0 {
+			held = append(held, q)
+			p.mu.Lock()
+			p.npending = len(pending) + len(held)
+			p.mu.Unlock()
+			continue
+		}
 		if (pk.Typ == wire.Read || pk.Typ == wire.Write) && window > 1 {
 			pending = append(pending, q)
 			p.mu.Lock()
